@@ -19,7 +19,7 @@ META = {
     "non-trivial = the two descriptors differ",
     "assumptions": ["pool of well-formed objects as stated; SE(2) angles of the pool stay away from the +-pi seam (equals is numeric on components)", "cross-family pairs (pose vs edge) are outside the property"],
     "required_classes": ["pair:pose", "pair:vertex", "pair:edge", "pair:graph", "cross_type", "perturb:sub", "perturb:super", "discrete"],
-    "bounds": {"quick": "pool: 17 poses, 19 vertices, 39 edges, 20 graphs; all ordered pairs x 2 tolerances; perturbation exponents -12..-2, 2, 3", "thorough": "same + tol 1e-9 and 1e-1, relative and absolute perturbation variants"},
+    "bounds": {"quick": "pool: 17 poses, 19 vertices, 42 edges, 20 graphs; all ordered pairs x 2 tolerances; perturbation exponents -12..-2, 2, 3", "thorough": "same + tol 1e-9 and 1e-1, relative and absolute perturbation variants"},
 }
 
 Q1 = [0.18257418583505536, -0.3651483716701107, 0.5477225575051661, 0.7302967433402214]
@@ -103,6 +103,10 @@ def edge_pool():
         {"k": "vararity", "ids": [0, 1, 2], "om": _eye(2), "est": [0.5, -0.5]},
         {"k": "scalar", "ids": [0, 1], "om": _eye(1), "est": 1.5},
         {"k": "scalar", "ids": [0, 1], "om": _eye(1), "est": 0.0},
+        # array / scalar estimates of equal NORM that are different measurements
+        {"k": "prior", "ids": [0], "om": _eye(2), "est": [-0.5, 0.5]},
+        {"k": "prior", "ids": [0], "om": _eye(2), "est": [0.5, 0.5]},
+        {"k": "scalar", "ids": [0, 1], "om": _eye(1), "est": -1.5},
         # same numbers, one estimate a plain array and the other a pose object: different types
         {"k": "prior", "ids": [0], "om": _eye(2), "est": [1.0, 2.0]},
         {"k": "priorpose", "ids": [0], "om": _eye(2), "est": ps[0]},
